@@ -35,10 +35,10 @@ ENTRY = dict(
             "implementation with dyadic inputs under a 53-bit mantissa budget on which binary64 is exact, argued in harness/c04.py and "
             "re-checked by exact comparison of Fraction(float) with the model's Q)",
             "the cut-off 1e-14 is read from weights.py on every run (Extracted/Facts.v nonzero_atol)",
-            "hypothesis no_entry_in_cutoff (c04_count_sum exactness clause, c04_unbiased_partial): every input entry is 0 or > 1e-14 "
+            "hypothesis no_entry_in_cutoff (c04_count_sum exactness clause, c04_unbiased): every input entry is 0 or > 1e-14 "
             "(observation O2: an entry bit-equal to the cut-off is ignored by the all-exact test but still emitted, so the entry count can "
             "exceed ceil(N)), and no raw conditional-table entry of the DFS lies in (0,1e-14]; otherwise the mass lost is bounded as stated",
-            "hypothesis N <= 1e14 (atol*N <= 1) in c04_exact_complete/c04_count_sum/c04_unbiased_partial: beyond it the all-exact branch "
+            "hypothesis N <= 1e14 (atol*N <= 1) in c04_exact_complete/c04_count_sum/c04_unbiased: beyond it the all-exact branch "
             "drops maps with 1/N <= p < 1e-14 (non-vacuity example c04_ex_bound_needed); the property's range is N <= 1e6 or infinity",
             "the model has the REPAIRED F9 behaviour (`if samples_needed < 1: return retval`); on the unrepaired /repo the implementation "
             "raises AssertionError on such inputs and the run reports a VIOLATION",
